@@ -19,4 +19,6 @@ PROPS = {
     'C08': {'module': 'sim.world_c08', 'quick': 4000, 'thorough': 250000, 'chunk': 50},
     'C04': {'module': 'sim.c04', 'quick': 1500, 'thorough': 60000, 'chunk': 20},
     'C17': {'module': 'sim.c17', 'quick': 1200, 'thorough': 60000, 'chunk': 20},
+    'C18': {'module': 'sim.c18', 'quick': 2000, 'thorough': 80000, 'chunk': 30},
+    'C19': {'module': 'sim.c19', 'quick': 2000, 'thorough': 80000, 'chunk': 30},
 }
